@@ -193,3 +193,38 @@ def c14_plan(ctx, tier):
 
 
 PLANS["C14"] = c14_plan
+
+
+def c19_plan(ctx, tier):
+    q = tier == "quick"
+    ctx.mc_replay("matchers", "MC_Matchers.tla", "MC_Matchers.cfg", "fam_loopq.json", ["C19"], replaycmd="replaymatchers",
+                  consts={"MaxLen": 4 if q else 5, "Subst": 1 if q else 2}, timeout=3400)
+    return dict(rule=("BM_Matchers.tla states the documented form of each of the eleven exported patterns as a recogniser over character "
+                      "sequences; TLC generates every string up to MaxLen over the matcher's own characters plus the HTML-significant and control "
+                      "characters (exhaustive) and every single (thorough: double) character substitution of the documented examples, checks the "
+                      "documented forms are closed over their documented alphabets and free of hostile characters, and emits each string with the "
+                      "documented verdict; the real regexp is asked for every string: accepted => documented form; documented example => "
+                      "accepted. non-trivial = strings the real matcher accepts"),
+                exhaustive=True,
+                assumptions=["TLC; Go regexp as the matcher under test; the documented forms are transcribed from the doc comments of helpers.go (DESIGN 4.7)",
+                             "one-directional oracle: the property does not oblige a matcher to accept every string of the documented form"])
+
+
+def c18_plan(ctx, tier):
+    q = tier == "quick"
+    ctx.mc_replay("css", "MC_Css.tla", "MC_Css.cfg", "fam_css.json", ["C18"], replaycmd="replaycss",
+                  consts={"MaxAtoms": 1 if q else 2}, timeout=3400)
+    return dict(rule=("MC_Css.tla enumerates, for each of the 213 properties with a default handler, every sequence of <= MaxAtoms atoms of "
+                      "the property's vocabulary (css_vocabulary.json) and every splice of one of 15 hostile fragments (url() with javascript:/"
+                      "data:/scheme-relative/httpx targets, expression(), javascript:/data: references, backslash escapes, angle brackets, "
+                      "</style>, at-rules) in 7 modes (separate token at every position, glued before/after, inserted at every cut, replacing "
+                      "every character, comma- and slash-joined); the verdict comes from the structure of the value; every value is given to "
+                      "css.GetDefaultHandler(prop) (as is and lower-cased), to the handler of an unknown property, and a sample end to end through "
+                      "Policy.Sanitize with AllowStyles(prop).Globally(). non-trivial = spliced values judged"),
+                exhaustive=True,
+                assumptions=["TLC is used as the bounded-exhaustive enumerator of structured values; css_vocabulary.json feeds generation only (atoms the handler no longer accepts are dropped and counted; exit 2 if most are)",
+                             "hostile set = the constructs the property lists"])
+
+
+PLANS["C19"] = c19_plan
+PLANS["C18"] = c18_plan
